@@ -85,7 +85,7 @@ class Worker(object):
     def ref_outcome(self, ev):
         k = ekey(ev)
         if k not in self.ref_cache:
-            ((out, _),) = self.replica.call("batch", [ev], False)
+            (out,) = self.replica.call("fork_eval", [ev])
             self.ref_cache[k] = out
         return self.ref_cache[k]
 
